@@ -3,7 +3,7 @@
 # usage: tools/seeded_run.sh [name ...]      (default: every directory under seeded/)
 cd "$(dirname "$0")/.."
 [ -z "$(git -C /repo status --porcelain -- operon_ai)" ] || { echo "/repo is not clean"; exit 9; }
-names=${@:-$(ls seeded | grep -v RESULTS)}
+names=${@:-$(ls seeded | grep -v RESULTS | grep -v MUTATION)}
 # evidence/ must only ever hold runs on the unchanged tree: keep it aside while the changed trees are checked
 KEEP=$(mktemp -d); cp -a evidence "$KEEP/"; trap 'rm -rf evidence; cp -a "$KEEP/evidence" evidence; rm -rf "$KEEP"' EXIT
 for n in $names; do
